@@ -179,4 +179,17 @@ CHECKS["C09"] = {
  "technique": "Coq proof (lock invariant preserved by every step of every schedule; permutation/regrouping invariance of sums over a commutative monoid; uniqueness of a sorted permutation) + replay of observed schedules and data sets through the same executable model by vm_compute + implementation oracle",
 }
 
+CHECKS["C16"] = {
+  "text": "Machine-checked theorems (coq/props/C16.v) over an explicit object-store model of reservoirpy nodes, models, name registries and deepcopy/pickle/Node.copy: every cell of a copy is fresh and any sequence of writes "
+          "to one side leaves every cell of the other unchanged (frame); the only shared cell of Node.copy is the documented feedback sender; copied cells have equal contents, hence for every forward function of the node "
+          "contents and every input sequence the copy returns what the original would have at copy time, whatever is done to the other side afterwards (bisimulation); a deep-copied model finds each node under its new name, "
+          "so stateless runs, return_states and name-keyed I/O are defined; refutations for the pre-fix registry and for the open name-collision finding; over R, for every shaped v0.2 ESN, activation, fbfunc, state and input "
+          "sequence, the ESN built by load_compat goes through the same states and outputs, with Q refutations of the pre-fix conversion. Tie: random DAG, feedback and single-node scenarios run, copied (deepcopy / pickle / "
+          "Node.copy), the other side run and overwritten in place, history replayed; names, registry keys, senders, sharing and the whole numeric history checked in Coq; legacy ESNs saved, loaded, converted and run. Oracle on "
+          "the real objects: equal outputs, supported operations, no shared bytes, load exact, load_compat to 1e-9.",
+  "note": "Trusted: Coq kernel; Reals axioms plus functional_extensionality_dep for the three load_compat theorems over R; deepcopy/pickle memo-table semantics; closedness of the reachable set re-checked per scenario (boolean "
+          "hypothesis); np.tanh via a recorded table; disk formats and dill as oracles; noise 0. Open finding copy:renamed-name-collision is mirrored (C16_name_collision_refuted), not repaired.",
+  "technique": "Coq proof (frame theorem over write sequences, bisimulation by induction over execution order and input sequence, list-level matrix transpose identities at R) about an executable Gallina heap and legacy-ESN model + model-vs-code correspondence by vm_compute",
+}
+
 NOT_YET = {}
